@@ -7,10 +7,13 @@ open GitSizer GitSizer.Spec
 /-- `opts`: two command lines / configurations that must be equivalent, or a first one that must fail -/
 def optsEngine : Engine := fun inp obs =>
   match inp, obs with
-  | [_, _, _, _, expect], [ca, ha, la, ea, cb, hb, _lb, _eb, pa, pb] =>
+  | [c1, a1, c2, a2, expect], [ca, ha, la, ea, cb, hb, _lb, _eb, pa, pb] =>
+    -- which rows are shown is C11's subject too when the invocations differ in how the threshold is given
+    -- (hex of "threshold", "verbose", "critical" in the encoded options / settings)
+    let thr := [c1, a1, c2, a2].any fun f => (f.splitOn "7468726573686f6c64").length > 1 || (f.splitOn "766572626f7365").length > 1 || (f.splitOn "637269746963616c").length > 1
     if expect == "equal" then
       if ca != "0" || cb != "0" then .viol "C14" s!"equivalent invocations must both succeed: exit {ca} / {cb}"
-      else if ha != hb then .viol "C14" "equivalent option spellings / gitconfig settings produced different stdout"
+      else if ha != hb then .viol (if thr then "C14,C11" else "C14") "equivalent option spellings / gitconfig settings produced different stdout"
       else if pa != pb then .viol "C14" s!"equivalent progress settings: progress lines written {pa} / {pb}"
       else .ok
     else
@@ -26,7 +29,7 @@ def allEq (l : List String) : Bool := match l with | [] => true | x :: xs => xs.
 /-- `addr`: the same repository addressed in several ways, with replace refs, grafts, shallow marker -/
 def addrEngine : Engine := fun inp obs =>
   match inp, obs with
-  | [repoS, _t, refsS, _g, rootsS, style, shallow], ["ran", codesS, hashesS, numS, witS] =>
+  | [repoS, _t, refsS, _g, rootsS, style, shallow], ["ran", codesS, hashesS, numS, witS, wtHead] =>
     match parseRepo repoS, parseIdxList rootsS "." with
     | some r, some roots =>
       let codes := codesS.splitOn ","
@@ -37,6 +40,7 @@ def addrEngine : Engine := fun inp obs =>
         else .ok
       else if codes.any (· != "0") then .viol "C13" s!"git-sizer failed in some addressing mode: exit codes {codes}"
       else if !allEq hashes then .viol "C13" s!"the report differs between addressing modes: {hashes}"
+      else if wtHead == "0" then .viol "C13" "`git-sizer HEAD` in a linked worktree does not measure that worktree's HEAD"
       else
         let nrefs := if refsS == "-" then 0 else (refsS.splitOn ",").length
         let D := reachList r roots
